@@ -334,7 +334,13 @@ func c17Disruption(c *Check) {
 					tested := &Facts{FI: tfi, Atoms: f.Tested}
 					okT := tested.ImpliesCmp(FieldOf(tr, elapsedF), ">=", FieldOf(tr, timeoutF))
 					found = true
-					c.Result(okG && okT, "C17.Q3", "tickHeartbeat steps MsgCheckQuorum", fnName(tickHeartbeat), p.site(u.Instr), "under checkQuorum once electionElapsed >= electionTimeout", strings.Join(f.Describe(), "; "))
+					// and under nothing else: whenever the window ends with checkQuorum on, the check runs
+					okAlways, whyAlways := false, "path formula too large"
+					if pf, okP := tfi.PathFormula(u.Instr, -1); okP {
+						spec := bfAnd(bfSym(FieldOf(tr, checkQuorumF)), bfCmp(FieldOf(tr, elapsedF), ">=", FieldOf(tr, timeoutF)))
+						okAlways, whyAlways = bfImplies(spec, pf)
+					}
+					c.Result(okG && okT && okAlways, "C17.Q3", "tickHeartbeat steps MsgCheckQuorum", fnName(tickHeartbeat), p.site(u.Instr), "exactly under checkQuorum once electionElapsed >= electionTimeout (no further condition, e.g. a pending transfer, may suppress the check)", strings.Join(f.Describe(), "; ")+" "+shorten(whyAlways, 300))
 				}
 			}
 		}
